@@ -7,7 +7,12 @@ allocated at render time from Tokens(seed), so VERIF_SEED cannot change the set 
       case = {"u": [[block, ...], ...], "o": {options}}      one inner list per unit (page / slide / chapter)
       block = "p" (a paragraph holding one token) | grid;  grid = [[kind, ...], ...] (rows of cells)
       kind  = "T" one paragraph | "E" empty cell | "P" two paragraphs | "N" nested 1x1 table | "M" paragraph + nested 1x1 table;
-              html / epub only: a suffix "h" ("Th", "Eh", "Ph", "Nh") makes the cell a header cell <th> (same content)
+              cells with inline structure (family I): "R" one word written as two runs (docx / pptx: two runs; html / epub: the
+              second run inside <b>/<i>/<em>/<span>/<code>; odt / odp / rtf: plain text) | "K" one word whose second half is a
+              hyperlink | "W" two words, the second a hyperlink | "B" two words with a line break between them | "A" two words
+              with a tab between them | "G" an empty paragraph, then a paragraph | "L" a list of two items (not pptx) |
+              "H" a heading, then a paragraph (not pptx / odp);
+              html / epub only: a suffix "h" ("Th", "Eh", "Ph", "Nh", "Rh" ...) makes the cell a header cell <th> (same content)
       options: "hr" n (ODF table:table-header-rows), "cr" [[t, r, c, n]] / "rr" [[t, r, n]] (ODF number-columns-repeated /
                number-rows-repeated), "html" spelling of the HTML renderer (a named variant or a dict, see
                c13_helpers.html_spelling), "rtf" writer options (row_props / eol)
@@ -15,7 +20,8 @@ allocated at render time from Tokens(seed), so VERIF_SEED cannot change the set 
       case = {"sheets": [grid, ...], "o": {options}}; grid = rows of ADM cells with ["s", k] = k-th string token,
       ["s", "literal"], ["s2", k1, k2] = two-line string; None = no cell.
       options: "cr"/"rr" (ods repeats), "rep" (ods trailing repeat option), "w" writer options (xls rk/blank_records/datemode,
-      xlsx inline_strings/date1904)
+      xlsx inline_strings/date1904), "cm" [[sheet, r, c(, lines)]] cells carrying a comment (its text: one token of the
+      hidden class M per line; ods office:annotation, xlsx comments part + legacy drawing, xls NOTE + text-box object)
   histories (all formats)
       case = {"seq": [case, case(, case)]}: the documents are written with one token source, then read one after the other
       in ONE process; every document is judged on its own with the clauses below (the property quantifies over tables, not
@@ -38,6 +44,18 @@ Families added to the bounded space (quick / thorough):
      F2 a date / time / duration / boolean cell and the plain number cell storing the same number, both orders (xls, xlsx);
      F3 all ordered pairs of cell kinds at one address (quick: one representative per kind, 11 x 11; thorough: the quick
      lattice squared); F4 all ordered pairs of 4 workbooks differing in string table size and sheet count
+  I  cell contents with inline structure (kinds R K W B A G L H, all text formats): one such cell at every position of every
+     grid up to 2x2 (3x3; two such cells of any kinds in grids of <= 4 cells), every ordered pair of kinds side by side and one
+     above the other, next to empty cells, with paragraphs around / next to another table / in two units; html, epub: as data
+     and header cell under 8 (html 11) spellings and every inline wrapper element; docx: inside content controls; rtf: 4
+     writer spellings
+  X  HTML-family serialisation spellings that do not change the document: XML empty-element tags for elements without
+     content (<td/>, <td />, <th/>, <p/>; epub only) and comments between rows / cells and inside cells (html, epub): every
+     grid of the grid space over {text, empty} x {td, th} x row sections x cell-paragraph spelling x white space / colgroup,
+     with paragraphs around, adjacent tables, next chapter
+  N  spreadsheet cells carrying a comment: every cell of every string grid up to 2x2 and all of them, every value of the
+     typed lattice (body and row 0), two-line strings, empty cells inside the used range, second sheet, ods repeated
+     neighbours (thorough: two-line comments, every pair of commented cells)
   E  text-format histories: all ordered pairs over the small / empty / nested 1x1 grids (thorough: also triples A B A with
      paragraphs around)
 
@@ -47,7 +65,10 @@ Oracle (only what the statement says):
   shape:rows   get_table() has r rows;  shape:cols  row i has between len(source row i) and max c cells, the extra ones empty
   dim          get_dim() == (r, max c)      (only judged when the shape is right)
   cell:*       cell (i,j) holds exactly the tokens of source cell (i,j): none lost / duplicated / foreign / reordered,
-               paragraphs separated by white space, no other text
+               paragraphs separated by white space, no other text. A word split over runs / inline elements is still one
+               word (cell:lost if it comes back in pieces); words separated by a line break or a tab stay separated
+               (cell:sep); a link target, a comment text or any other text that is not cell content is cell:residue /
+               cell:foreign; only the item markers of a list in the cell (bullet glyphs) are not judged
   nested:*     tokens of a nested table are in the outer cell or in their own grid (lost / neighbour / dup)
   cells        spreadsheet: a text / empty cell is not where the source has it (row too short / long, text lost, moved, invented)
   header:empty an empty cell of row 0 came back with content;  header:typed / value:<kind>  a typed cell (row 0 / body) does
@@ -72,13 +93,29 @@ SHEET_FORMATS = ["xlsx", "ods", "xls"]
 NEST_OK = {"docx", "odt", "html", "epub", "rtf"}          # pptx / odp table cells hold paragraphs only
 RAGGED_OK = {"docx", "odt", "odp", "html", "epub", "rtf"}  # DrawingML rows always have one a:tc per grid column
 MULTIUNIT_OK = {"docx", "pptx", "odt", "odp", "epub", "rtf"}
+NOTES_OK = {"ods", "xlsx", "xls"}                               # spreadsheet writers that can attach a comment to a cell
+# cell contents with inline structure (family I): R two runs of one word, K word half inside a hyperlink, W two words (the second
+# a hyperlink), B line break, A tab, G empty paragraph + paragraph, L list of two items, H heading + paragraph
+INLINE_KINDS = ["R", "K", "W", "B", "A", "G", "L", "H"]
+INLINE_NOT = {"pptx": {"L", "H"}, "odp": {"H"}}            # DrawingML / ODF draw table cells hold plain paragraphs (odp: and lists)
 REPEATS = (1, 2, 100, 101)
+LINK_URL = "http://h.example/x"
 
 
 # =============================================================================================== text formats: build
 
 def _p(tok):
     return ["p", [["t", tok]]]
+
+
+class _Own(list):
+    """the tokens of a source cell; markers: the cell holds a list, whose item markers (bullet glyphs) are not judged"""
+    def __init__(self, toks, markers=False):
+        super().__init__(toks)
+        self.markers = markers
+
+
+LIST_MARKERS = "\u00b7\u2022\u25e6\u25aa\u2023\u2043-\u2013*"
 
 
 def _mk_cell(kind, tk):
@@ -98,6 +135,30 @@ def _mk_cell(kind, tk):
     if kind == "M":
         a, n = tk.new("C"), tk.new("C")
         return [_p(a), ["tbl", [[[_p(n)]]]]], [a], [n]
+    if kind == "R":          # one word written as two runs (character formatting changes inside the word)
+        a = tk.new("C")
+        return [["p", [["t", a[:3]], ["t", a[3:]]]]], [a], []
+    if kind == "K":          # one word whose second half is a hyperlink
+        a = tk.new("C")
+        return [["p", [["t", a[:3]], ["a", LINK_URL, [["t", a[3:]]]]]]], [a], []
+    if kind == "W":          # two words and a blank, the second word (not the blank) is a hyperlink
+        a, b = tk.new("C"), tk.new("C")
+        return [["p", [["t", a + " "], ["a", LINK_URL, [["t", b]]]]]], [a, b], []
+    if kind == "B":          # two lines of one paragraph (line break)
+        a, b = tk.new("C"), tk.new("C")
+        return [["p", [["t", a], ["br"], ["t", b]]]], [a, b], []
+    if kind == "A":          # two words of one paragraph with a tab between them
+        a, b = tk.new("C"), tk.new("C")
+        return [["p", [["t", a], ["tab"], ["t", b]]]], [a, b], []
+    if kind == "L":          # a list of two items
+        a, b = tk.new("C"), tk.new("C")
+        return [["ul", [[_p(a)], [_p(b)]]]], _Own([a, b], markers=True), []
+    if kind == "G":          # an empty paragraph in front of the text
+        a = tk.new("C")
+        return [["p", []], _p(a)], [a], []
+    if kind == "H":          # a heading and a paragraph
+        a, b = tk.new("C"), tk.new("C")
+        return [["h", 2, [["t", a]]], _p(b)], [a, b], []
     raise ValueError("cell kind %r" % (kind,))
 
 
@@ -167,11 +228,13 @@ def render_text(fmt, doc, o):
     if fmt == "html":
         if len(doc[2]) != 1:
             raise NotImplementedError("an HTML page is one unit")
+        if not H.html_is_html_ok(var):
+            raise NotImplementedError("text/html has no empty-element tags for non-void elements")
         return htmlfam.html_page(H.html_blocks(doc[2][0][1], var), "t").encode("utf-8")
     if fmt == "epub":
         if not H.html_is_xml_ok(var):
             raise NotImplementedError("XHTML has no optional end tags, upper-case names or unquoted attributes")
-        return htmlfam.epub([htmlfam.xhtml_page(H.html_blocks(u[1], var), "t") for u in doc[2]], {"title": "t"})
+        return htmlfam.epub([htmlfam.xhtml_page(H.html_blocks(u[1], var, xml=True), "t") for u in doc[2]], {"title": "t"})
     raise ValueError(fmt)
 
 
@@ -277,6 +340,8 @@ def check_text(exp, got):
                 continue
             for ci, (own, nested) in enumerate(erow):
                 toks, sep, res = H.cell_tokens(grow[ci])
+                if getattr(own, "markers", False):
+                    res = "".join(ch for ch in res if ch not in LIST_MARKERS)
                 rest = [t for t in toks if t not in nested]
                 for t in toks:
                     if t in nested:
@@ -353,15 +418,33 @@ def build_sheets(case, tk):
     return ["doc", {}, sheets], exp
 
 
-def render_sheets(fmt, doc, o):
+def build_notes(case, tk):
+    """the cell comments of a spreadsheet case, option "cm": [[sheet, r, c(, lines)]] -> [[sheet, r, c, text]]; the text is
+    one token of class M per line (allocated after the tokens of the sheets: call after build_sheets with the same tk)"""
+    out = []
+    for ent in (case.get("o") or {}).get("cm") or []:
+        n = ent[3] if len(ent) > 3 else 1
+        out.append([ent[0], ent[1], ent[2], "\n".join(tk.new("M") for _ in range(n))])
+    return out
+
+
+def render_sheets(fmt, doc, o, notes=None):
     from verif.gen import biff8, odf, ooxml
     w = dict(o.get("w") or {})
+    if notes and fmt not in NOTES_OK:
+        raise NotImplementedError("cell comments: no writer support for " + fmt)
     if fmt == "xlsx":
+        if notes:
+            w["comments_at"] = notes
         return ooxml.xlsx(doc, opts=w)
     if fmt == "xls":
+        if notes:
+            w["comments_at"] = notes
         return biff8.xls(doc, opts=w)
     if fmt == "ods":
         opts = {}
+        if notes:
+            opts["comments_at"] = notes
         if o.get("cr"):
             opts["cell_repeat"] = o["cr"]
         if o.get("rr"):
@@ -512,7 +595,7 @@ def _render_one(fmt, case, tk):
     o = case.get("o") or {}
     if "sheets" in case:
         doc, exp = build_sheets(case, tk)
-        return exp, render_sheets(fmt, doc, o)
+        return exp, render_sheets(fmt, doc, o, build_notes(case, tk))
     doc, exp = build_text(case, tk)
     return exp, render_text(fmt, doc, o)
 
@@ -544,7 +627,7 @@ def _describe_one(fmt, case, tk):
     o = case.get("o") or {}
     if "sheets" in case:
         doc, exp = build_sheets(case, tk)
-        data = render_sheets(fmt, doc, o)
+        data = render_sheets(fmt, doc, o, build_notes(case, tk))
         src = exp
     else:
         doc, exp = build_text(case, tk)
@@ -628,6 +711,12 @@ def _shrink_opts(case):
             if rep.get(key):
                 for m in [None] + _smaller_n(rep[key]):
                     yield _with_opts(case, dict(o, rep=dict(rep, **{key: m})))
+    if "sheets" in case and len(o.get("cm") or []) > 1:
+        for i in range(len(o["cm"])):
+            yield _with_opts(case, dict(o, cm=o["cm"][:i] + o["cm"][i + 1:]))
+    for i, ent in enumerate(o.get("cm") or [] if "sheets" in case else []):
+        if len(ent) > 3:
+            yield _with_opts(case, dict(o, cm=o["cm"][:i] + [ent[:3]] + o["cm"][i + 1:]))
     for key in sorted(o.get("w") or {}):
         yield _with_opts(case, dict(o, w={k: v for k, v in o["w"].items() if k != key}))
     for key in sorted(o.get("rtf") or {}):
@@ -656,8 +745,8 @@ def _remap(o, ti, fr=None, fc=None, drop=False):
     """repeat options after an edit of table / sheet number ti: fr(r) -> new row index or None, fc(r, c) -> new column
     index or None; drop: the table itself is removed (later tables move up)"""
     o = dict(o)
-    for key in ("cr", "rr"):
-        if not o.get(key):
+    for key in ("cr", "rr", "cm"):
+        if not o.get(key) or not isinstance(o[key], list):
             continue
         out = []
         for ent in o[key]:
@@ -670,11 +759,11 @@ def _remap(o, ti, fr=None, fc=None, drop=False):
             r2 = fr(r) if fr else r
             if r2 is None:
                 continue
-            if key == "cr":
+            if key in ("cr", "cm"):
                 c2 = fc(r, ent[2]) if fc else ent[2]
                 if c2 is None:
                     continue
-                out.append([t, r2, c2, ent[3]])
+                out.append([t, r2, c2] + list(ent[3:]))
             else:
                 out.append([t, r2, ent[2]])
         o[key] = out
@@ -855,6 +944,9 @@ def embeds(small, big):
         if k in ("cr", "rr"):
             if sorted(e[-1] for e in v) != sorted(e[-1] for e in bo[k]):
                 return False
+        elif k == "cm":
+            if len(v) > len(bo[k]):
+                return False
         elif k == "html" and isinstance(v, dict) and isinstance(bo[k], dict):
             a, b = H.html_spelling(v), H.html_spelling(bo[k])
             if a["v"] != b["v"] or a["sec"] not in ("none", b["sec"]) or not set(a["omit"]) <= set(b["omit"]):
@@ -1008,6 +1100,10 @@ def text_cases(tier, fmt):
                     yield {"u": [[g1, g2]], "o": {"html": v}}
     if fmt in ("html", "epub"):
         yield from _html_spelling_cases(quick, fmt, small)
+    # I: cell contents with inline structure;  X: serialisation spellings of empty elements / comments (HTML family)
+    yield from _inline_cases(quick, fmt)
+    if fmt in ("html", "epub"):
+        yield from _xml_spelling_cases(quick, fmt)
     # E: histories - two documents (thorough: also three, A B A) read one after the other in one process; the documents of a
     #    history share one token source, so equal places hold different text
     pool_ = small + empt + ([_tgrid(1, 1, "N")] if fmt in NEST_OK else [])
@@ -1033,6 +1129,112 @@ def text_cases(tier, fmt):
                 yield {"u": [["p", g1, "p"]], "o": {"rtf": ro}}
                 for g2 in small:
                     yield {"u": [[g1, g2]], "o": {"rtf": ro}}
+
+
+def _inline_cases(quick, fmt):
+    """Family I: cells whose content has inline structure (INLINE_KINDS): one such cell at every position of every grid up to
+    2x2 (thorough: up to 3x3, and two such cells of any two kinds in grids of <= 4 cells), every ordered pair of kinds side by side and one above the
+    other (quick: both in one 2x2 grid), next to empty cells, with paragraphs around and next to another table; html / epub: as data and as header cell
+    under the cell-paragraph spellings, every inline wrapper element, row sections, omitted end tags (html) and the XML
+    empty-element spelling (epub); docx: inside content controls; rtf: under the writer's line-end / row-property spellings"""
+    kinds = [k for k in INLINE_KINDS if k not in INLINE_NOT.get(fmt, ())]
+    htmlish = fmt in ("html", "epub")
+    grids = []
+    for r, c in _shapes(2 if quick else 3):
+        for g in _dev(r, c, "T", kinds, 1 if quick or r * c > 4 else 2):
+            if any(k != "T" for row in g for k in row):
+                grids.append(g)
+    for k1 in kinds:
+        grids.append([[k1, "E"], ["E", k1]])
+        grids.append([["E", k1]])
+        grids.append([[k1], ["E"]])
+        for k2 in kinds:
+            grids.append([[k1, k2], [k2, k1]])
+            if not quick:
+                grids.append([[k1, k2]])
+                grids.append([[k1], [k2]])
+    if htmlish:
+        for k in kinds:
+            grids += [[[k + "h"]], [[k + "h", "Th"], ["T", "T"]], [[k + "h", "T"], ["Th", k]], [["Th", "Th"], ["T", k]], [["Th", k + "h"]]]
+    ctx_grids = [[[k]] for k in kinds] + [[["T", k], [k, "T"]] for k in kinds]
+    if not htmlish:
+        opt_sets = [None]
+        if fmt == "docx":
+            opt_sets.append({"docx": {"cell_sdt": True}})
+        if fmt == "rtf":
+            opt_sets += [{"rtf": ro} for ro in ({"row_props": "both"}, {"eol": "\r\n"}, {"eol": "\n"}, {"row_props": "both", "eol": "\r\n"})]
+        for o in opt_sets:
+            for g in grids if o is None or not quick else [g for g in grids if len(g) * len(g[0]) <= 2]:
+                yield dict({"u": [[g]]}, **({"o": o} if o else {}))
+        for g in ctx_grids:
+            yield {"u": [["p", g, "p"]]}
+            yield {"u": [[g, _tgrid(1, 1)]]}
+            yield {"u": [[_tgrid(1, 1), g]]}
+            if fmt in MULTIUNIT_OK:
+                yield {"u": [[g], [g]]}
+        return
+    html = fmt == "html"
+    sps = [{"v": "p"}, {}, {"sec": "head"}, {"cm": 1}, {"ws": 1}]
+    sps += ([{"omit": "c"}, {"omit": "cr"}, {"v": "p", "omit": "crp"}, {"upper": 1}, {"ws": 1, "omit": "cr"}, {"sec": "headfoot", "omit": "crs"}] if html
+            else [{"sc": 1}, {"sc": 2, "v": "p"}, {"sc": 1, "cm": 1, "ws": 1}])
+    for g in grids:
+        small_g = len(g) * len(g[0]) <= 2
+        for sp in sps if small_g or not quick else sps[:3] + sps[5:7]:
+            if sp.get("sec") in ("head", "headfoot") and len(g) < 2:
+                continue
+            yield {"u": [[g]], "o": {"html": _sp(sp)}}
+    for w in H.INLINE_WRAPS:
+        for v in ("bare", "p"):
+            for g in ([["R"]], [["T", "R"], ["R", "T"]], [["Rh", "R"]], [["R", "E"], ["E", "R"]]):
+                yield {"u": [[g]], "o": {"html": {"v": v, "wrap": w}}}
+                if html:
+                    yield {"u": [[g]], "o": {"html": {"v": v, "wrap": w, "omit": "cr"}}}
+    for g in ctx_grids:
+        for sp in ({"v": "p"}, {}):
+            yield {"u": [["p", g, "p"]], "o": {"html": _sp(sp)}}
+            yield {"u": [[g, _tgrid(1, 1)]], "o": {"html": _sp(sp)}}
+            yield {"u": [[_tgrid(1, 1), g]], "o": {"html": _sp(sp)}}
+            if fmt in MULTIUNIT_OK:
+                yield {"u": [[g], [g]], "o": {"html": _sp(sp)}}
+
+
+def _xml_spelling_cases(quick, fmt):
+    """Family X: one table under the serialisation spellings of the HTML family that do not change the document: XML
+    empty-element tags for elements without content (<td/>, <td />, <th/>, <p/>; EPUB only - in text/html the slash is
+    ignored) and comments between rows, between cells and inside cells (html and epub). Every grid of the bounded grid space
+    over {text, empty} x {td, th} cells (quick: all up to 2x2, one deviating cell up to 3x3; thorough: all up to 4 cells, two
+    deviating cells up to 4x4), x row sections x cell-paragraph spelling x white space / colgroup; with paragraphs
+    around, next to another table and (epub) in the next chapter"""
+    if quick:
+        full = list(_grid_space(True, ["T", "E", "Eh", "Th"]))
+    else:
+        full = [g for r, c in _shapes(4)
+                for g in (_full(r, c, ["T", "E", "Eh", "Th"]) if r * c <= 4 else _dev(r, c, "T", ["E", "Eh", "Th"], 2))]
+    te = list(_grid_space(quick, ["T", "E"]))
+    fams = []
+    if fmt == "epub":
+        fams += [(full, [{"sc": 1}, {"sc": 2}]),
+                 (te, [{"sc": 1, "v": "p"}, {"sc": 1, "sec": "head"}, {"sc": 2, "sec": "bodies"}, {"sc": 1, "sec": "headfoot"},
+                       {"sc": 2, "ws": 1, "cg": 1}, {"sc": 1, "cm": 1}, {"sc": 2, "sec": "body", "ws": 1}])]
+    fams += [(te, [{"cm": 1}, {"cm": 1, "v": "p"}, {"cm": 1, "sec": "headfoot"}, {"cm": 1, "ws": 1, "sec": "bodies"}]
+                  + ([{"cm": 1, "omit": "cr"}, {"cm": 1, "omit": "crs", "sec": "bodies"}, {"cm": 1, "upper": 1, "attr": 1}] if fmt == "html" else []))]
+    for grids, sps in fams:
+        for g in grids:
+            for sp in sps:
+                if sp.get("sec") in ("head", "foot", "headfoot") and len(g) < 2:
+                    continue
+                yield {"u": [[g]], "o": {"html": _sp(sp)}}
+    # neighbours of a table with empty cells
+    gs = [[["E"]], [["T", "E"]], [["E", "T"]], [["E"], ["T"]], [["T", "E"], ["E", "T"]], [["E", "E"], ["E", "E"]], [["Eh", "Th"], ["T", "E"]]]
+    nsps = ([{"sc": 1}, {"sc": 2, "v": "p"}] if fmt == "epub" else []) + [{"cm": 1}]
+    for sp in nsps:
+        for g1 in gs:
+            yield {"u": [["p", g1, "p"]], "o": {"html": _sp(sp)}}
+            for g2 in gs[:5] + [_tgrid(1, 1)]:
+                yield {"u": [[g1, g2]], "o": {"html": _sp(sp)}}
+                yield {"u": [[g1, "p", g2]], "o": {"html": _sp(sp)}}
+                if fmt == "epub":
+                    yield {"u": [[g1], [g2]], "o": {"html": _sp(sp)}}
 
 
 def _th_patterns(r, c):
@@ -1293,6 +1495,9 @@ def sheet_cases(tier, fmt):
                 if _typed_ok(fmt, z2) and z2 != z:
                     yield {"sheets": [base + [[z, z2]]]}
                     yield {"sheets": [[base[0] + [z], base[1] + [z2]]]}
+    # N: cells that carry a comment (annotation / note)
+    if fmt in NOTES_OK:
+        yield from _note_cases(quick, fmt)
     # F: histories - workbooks read one after the other in one process (see evaluate); the workbooks of a history share one
     #    token source, so the same string-table index / cell address holds different text in each
     yield from _sheet_histories(quick, fmt)
@@ -1305,6 +1510,47 @@ def sheet_cases(tier, fmt):
                 for c_ in pool_:
                     yield {"sheets": [a, b, c_]}
     yield {"sheets": [[]]}
+
+
+def _note_cases(quick, fmt):
+    """Family N: a comment (ODF office:annotation, SpreadsheetML comments part, BIFF8 NOTE + text-box object) on a cell: on every cell of every string grid
+    up to 2x2 and on all of them, on a typed cell (every value of the typed lattice) in the body and in row 0, on a two-line
+    string, on an empty cell inside the used range, on the second sheet; thorough: two-line comments, every pair of commented
+    cells of a 2x2 grid, comments on ODS repeated cells"""
+    for r, c in _shapes(2):
+        base = _S(_tgrid(r, c, "S"))
+        cells = [[0, i, j] for i in range(r) for j in range(c)]
+        for ent in cells:
+            yield {"sheets": [base], "o": {"cm": [ent]}}
+            if not quick:
+                yield {"sheets": [base], "o": {"cm": [ent + [2]]}}
+        if len(cells) > 1:
+            yield {"sheets": [base], "o": {"cm": cells}}
+        if not quick:
+            for a, b in itertools.combinations(cells, 2):
+                yield {"sheets": [base], "o": {"cm": [a, b]}}
+    values = [v for v in TYPED_QUICK + ([] if quick else TYPED_MORE) if _typed_ok(fmt, v)] + [["s2", 5, 6]]
+    for v in values:
+        yield {"sheets": [[[["s", 0], ["s", 1]], [["s", 2], v]]], "o": {"cm": [[0, 1, 1]]}}
+        yield {"sheets": [[[v, ["s", 1]], [["s", 2], ["s", 3]]]], "o": {"cm": [[0, 0, 0]]}}
+        if not quick:
+            yield {"sheets": [[[v]]], "o": {"cm": [[0, 0, 0]]}}
+            yield {"sheets": [[[["s", 0], ["s", 1]], [["s", 2], v]]], "o": {"cm": [[0, 1, 0]]}}
+    # empty cells inside the used range
+    yield {"sheets": [[[["s", 0], None, ["s", 1]]]], "o": {"cm": [[0, 0, 1]]}}
+    yield {"sheets": [[[["s", 0]], [None], [["s", 1]]]], "o": {"cm": [[0, 1, 0]]}}
+    yield {"sheets": [[[["s", 0], ["s", 1]], [None, ["s", 2]]]], "o": {"cm": [[0, 1, 0]]}}
+    yield {"sheets": [[[["s", 0], None], [["s", 1], ["s", 2]]]], "o": {"cm": [[0, 0, 1]]}}
+    yield {"sheets": [[[["s", 0], ["s", 1], ["s", 2]], [["s", 3], None, ["s", 4]], [["s", 5], ["s", 6], ["s", 7]]]], "o": {"cm": [[0, 1, 1]]}}
+    # several sheets
+    b1, b2 = _S(_tgrid(1, 2, "S")), _S(_tgrid(2, 1, "S"))
+    yield {"sheets": [b1, b2], "o": {"cm": [[1, 1, 0]]}}
+    yield {"sheets": [b1, b2], "o": {"cm": [[0, 0, 1], [1, 0, 0]]}}
+    yield {"sheets": [b2, b1], "o": {"cm": [[0, 0, 0]]}}
+    if fmt == "ods":
+        for n in REPEATS if not quick else REPEATS[:2]:
+            yield {"sheets": [_S(_tgrid(1, 2, "S"))], "o": {"cm": [[0, 0, 0]], "cr": [[0, 0, 1, n]]}}
+            yield {"sheets": [_S(_tgrid(2, 1, "S"))], "o": {"cm": [[0, 0, 0]], "rr": [[0, 1, n]]}}
 
 
 def _sheet_shapes_thorough():
@@ -1480,14 +1726,22 @@ def run(ctx):
                    "sheet sequences, trailing rows / columns of falsy typed values; HTML/EPUB spellings: every td/th assignment x row sections x "
                    "omitted optional end tags x white space / attributes / upper case / colgroup; histories: two (thorough: three) documents read one "
                    "after the other in one process - the two date systems of xls / xlsx with equal serials, equal stored numbers under other cell "
-                   "formats, all ordered pairs of cell kinds, string tables of different size, pairs of text-format tables) rendered by the reference writers and extracted by the real readers; distinct_nontrivial = distinct "
+                   "formats, all ordered pairs of cell kinds, string tables of different size, pairs of text-format tables; "
+                   "cell contents with inline structure - word in two runs / half in a hyperlink, line break, tab, empty paragraph, list, heading - at every "
+                   "position of every grid up to 2x2 [thorough 3x3] and in all ordered pairs; XML empty-element tags <td/> <td /> <th/> <p/> [epub] and comments "
+                   "between / inside cells [html, epub] over every {text, empty} x {td, th} grid of the grid space x row sections; spreadsheet cells carrying a "
+                   "comment [ods, xlsx, xls] on every cell of every grid up to 2x2, on every typed value, on empty cells inside the used range) rendered by the reference writers and extracted by the real readers; distinct_nontrivial = distinct "
                    "(format, failed clauses, returned dims) outcome classes",
            "per_format": per_fmt, "failing_by_format_clause": dict(sorted(fail_fmt.items())),
            "bounds": {"tier": ctx.tier, "grid_full_upto": "2x2" if ctx.quick else "6 cells", "grid_max": "3x3" if ctx.quick else "4x4",
                       "html_th_assignments": "all of every grid up to " + ("2x2" if ctx.quick else "6 cells"), "html_sections": list(H.HTML_SECTIONS),
                       "html_omitted_end_tags": "every subset of {cells, rows, sections}; </p> in cells", "html_flags": list(H.HTML_FLAGS),
                       "history_length": 2 if ctx.quick else 3, "date_systems": ["1900", "1904"], "date_system_shift_days": 1462,
-                      "falsy_values": len(FALSY[:5] if ctx.quick else FALSY), "repeats": list(REPEATS)}}
+                      "falsy_values": len(FALSY[:5] if ctx.quick else FALSY), "repeats": list(REPEATS),
+                      "inline_cell_kinds": list(INLINE_KINDS), "inline_grid_max": "2x2, 1 such cell + all ordered pairs" if ctx.quick else "3x3, <= 2 such cells in <= 4 cells",
+                      "inline_wrappers": list(H.INLINE_WRAPS), "xml_empty_element_spellings": ["<td/>", "<td />"],
+                      "xml_spelling_grids": "{T,E,Th,Eh}: all up to 2x2, 1 deviating cell up to 3x3" if ctx.quick else "{T,E,Th,Eh}: all up to 4 cells, 2 deviating cells up to 4x4",
+                      "comment_formats": sorted(NOTES_OK), "comment_lines": 1 if ctx.quick else 2}}
     return {"coverage": cov, "failures": fails, "harness_errors": herr,
             "assumptions": [
                 "a nested table may come back inside its outer cell, as a 1x1 grid of its own (before or after the outer table's successors), or both",
@@ -1504,5 +1758,10 @@ def run(ctx):
                 "HTML: <th> and <td> are both cells of the grid; thead / tbody / tfoot keep source order (tfoot is written last); omitting the end "
                 "tags HTML5 13.1.2.4 makes optional does not change the table",
                 "spreadsheets: a cell holding 0, 0.0, FALSE, a zero duration or midnight is a used cell (it counts for the used range)",
+                "cell text with inline structure: character formatting, hyperlinks and other inline markup do not split a word and add no text (the link target "
+                "is not cell text); a line break or tab between two words is white space between them; the markers of a list inside a cell (bullet "
+                "glyphs such as the RTF \\listtext fallback) are not judged",
+                "XHTML (EPUB): <td/> and <td></td> are the same empty cell (XML 1.0, 3.1); a comment is not content",
+                "spreadsheets: a cell comment / annotation is not part of the cell's value; a comment on an empty cell inside the used range leaves it empty",
                 "ODF number-columns-repeated / number-rows-repeated on text and draw tables mean n copies of the cell / row (ODF 1.2 part 1, 19.675/19.679)",
             ]}
